@@ -132,7 +132,7 @@ def _ensure_build_locked(flavour, fdir, objdir, verbose):
         objs[(j[0], tuple(j[1]))] = obj
         if obj is None:
             errors.append((src, err))
-    probe_ok = True
+    probe_ok = not os.environ.get("BTCSIM_NO_PROBE")      # selftest: behave as if probe.cpp no longer compiled
     hard = []
     for src, err in errors:
         if src.endswith("seam/probe.cpp"):
